@@ -178,7 +178,8 @@ Definition scope_step (fr : bool) (evs : list (str * ev)) (acc : list (list ster
 Definition get_scoped_terms (fr : bool) (evs : list (str * ev)) (terms : list term) : list (list sterm) :=
   fst (fold_left (scope_step fr evs) terms ([], [])).
 
-Record out := { o_names : list str; o_cols : list column; o_drop : list nat; o_struct : list (list (list (str * bool) * Qc)) }.
+Record out := { o_names : list str; o_cols : list column; o_drop : list nat; o_struct : list (list (list (str * bool) * Qc));
+                o_term_cols : list (list str) (* the `columns` entry of each structure row *) }.
 
 Fixpoint ins_n (x : nat) (l : list nat) := match l with [] => [x] | y :: r => if (x <? y)%nat then x :: l else if (x =? y)%nat then l else y :: ins_n x r end.
 
@@ -216,7 +217,8 @@ Definition assemble (evs : list (str * ev)) (drop : list nat) (nrows : nat) (fr 
   let term_cols := map (fun sts => fold_left (fun dct st => dict_update dct (cols_of evs drop nkeep st)) sts []) per_term in
   let final := fold_left dict_update term_cols [] in
   {| o_names := map fst final; o_cols := map snd final; o_drop := drop;
-     o_struct := map (fun sts => map (fun st => (map (fun f => (sf_expr f, sf_red f)) (st_f st), st_scale st)) sts) per_term |}.
+     o_struct := map (fun sts => map (fun st => (map (fun f => (sf_expr f, sf_red f)) (st_f st), st_scale st)) sts) per_term;
+     o_term_cols := map (map fst) term_cols |}.
 
 Definition build (d : frame) (nrows : nat) (c : cfg) (terms : list term) : res out :=
   do evs <- eval_pool d (pool_of terms) [];
